@@ -44,8 +44,11 @@ type Params struct {
 	Seed      uint64 `json:"seed"`
 	Edit2     bool   `json:"edit2"`     // two-author (two-pack) commits
 	DelSingle bool   `json:"delsingle"` // also delete only one of the two clock files
-	MaxIdent  int    `json:"maxident"`  // at most this many identity mutations per path (0 = unbounded)
-	MaxNew    int    `json:"maxnew"`    // at most this many new bugs per path (0 = unbounded)
+	// LiveDel: clock files deleted while the handle stays open and goes on being used
+	// (delclocks-live): 1 = both files / the whole directory, 2 = also a single file
+	LiveDel  int `json:"livedel"`
+	MaxIdent int `json:"maxident"` // at most this many identity mutations per path (0 = unbounded)
+	MaxNew   int `json:"maxnew"`   // at most this many new bugs per path (0 = unbounded)
 	// MergeHead: the pre-fetched remote head of the shared bug is a merge commit written by the
 	// OTHER replica (it merged an edit of ours with its own work), carrying the largest edit time.
 	MergeHead bool `json:"mergehead"`
@@ -71,7 +74,8 @@ type model struct {
 	seenMax    uint64                   // largest edit time among them
 	nIdent     int
 	nNew       int
-	delSinceID bool // clock files were deleted since the last identity version was written
+	delSinceID bool            // clock files were deleted since the last identity version was written
+	liveSeen   map[string]bool // clocks the current handle is known to hold in memory
 }
 
 func New(params string) (xstate.Model, error) {
@@ -350,6 +354,7 @@ func (m *model) reopen() error {
 		_ = old.Close()
 		delete(m.w.Repos, "A")
 	}
+	m.liveSeen = nil
 	r, err := repository.OpenGoGitRepo(m.pathA, world.Namespace, loaders)
 	if err != nil {
 		m.repo = nil
@@ -416,11 +421,34 @@ func (m *model) fileClocks() (map[string]uint64, []string) {
 
 // liveClocks asks the live repository object for its clock values.
 func (m *model) liveClocks() (map[string]uint64, error) {
+	out := map[string]uint64{}
+	if !m.p.Mem {
+		// Observing must not change what the handle knows: AllClocks re-reads the clock directory
+		// (and is itself part of what is under test: making an identity version calls it), so the
+		// two bug clocks are asked for by name. GetOrCreateClock returns the clock the handle
+		// holds, or loads its file; it is only used where it cannot create anything: the file
+		// exists, or the handle has had the clock since it was opened.
+		for _, n := range []string{editClock, createClock} {
+			_, statErr := os.Stat(filepath.Join(m.gitdir, world.Namespace, "clocks", n))
+			if statErr != nil && !m.liveSeen[n] {
+				continue
+			}
+			c, err := m.repo.GetOrCreateClock(n)
+			if err != nil {
+				return nil, err
+			}
+			if m.liveSeen == nil {
+				m.liveSeen = map[string]bool{}
+			}
+			m.liveSeen[n] = true
+			out[n] = uint64(c.Time())
+		}
+		return out, nil
+	}
 	cs, err := m.repo.AllClocks()
 	if err != nil {
 		return nil, err
 	}
-	out := map[string]uint64{}
 	for n, c := range cs {
 		out[n] = uint64(c.Time())
 	}
@@ -486,9 +514,19 @@ func (m *model) Actions() []string {
 		if m.p.DelSingle {
 			out = append(out, "delclocks(edit)", "delclocks(create)")
 		}
+		if m.p.LiveDel >= 1 {
+			// the clock files disappear while the handle stays open and goes on being used
+			out = append(out, "delclocks-live(all)", "delclocks-live(dir)")
+		}
+		if m.p.LiveDel >= 2 {
+			out = append(out, "delclocks-live(edit)", "delclocks-live(create)")
+		}
 	}
 	if m.p.MaxIdent == 0 || m.nIdent < m.p.MaxIdent {
 		out = append(out, "identmut")
+		if m.p.LiveDel >= 1 {
+			out = append(out, "identnew")
+		}
 	}
 	return out
 }
@@ -666,10 +704,53 @@ func (m *model) Apply(a string) (string, []xstate.Violation, error) {
 	case "merge":
 		outcome = m.merge(s)
 	case "reopen":
+		// clock files that are missing now (deleted under the previous handle) are rebuilt by the loader
+		var missing []string
+		for _, n := range []string{editClock, createClock} {
+			if _, err := os.Stat(filepath.Join(m.gitdir, world.Namespace, "clocks", n)); err != nil {
+				missing = append(missing, n)
+			}
+		}
 		if err := m.reopen(); err != nil {
 			s.add("c05.usable", "reopen-fails", "re-opening the repository failed: %v", err)
 			return "open-error", s.viol, nil
 		}
+		if len(missing) > 0 {
+			deleted = missing
+			if !m.checkRebuilt(s, missing, fmt.Sprintf("after %v were deleted under an open handle and the repository was re-opened", missing), "-after-live-deletion") {
+				return "open-error", s.viol, nil
+			}
+			outcome = "rebuilt"
+		}
+	case "delclocks-live":
+		which := strings.TrimSuffix(strings.TrimPrefix(a, "delclocks-live("), ")")
+		dir := filepath.Join(m.gitdir, world.Namespace, "clocks")
+		switch which {
+		case "all", "dir":
+			deleted = []string{editClock, createClock}
+		case "edit":
+			deleted = []string{editClock}
+		case "create":
+			deleted = []string{createClock}
+		}
+		var err error
+		if which == "dir" {
+			err = os.RemoveAll(dir)
+		} else {
+			for _, n := range deleted {
+				if e := os.Remove(filepath.Join(dir, n)); e != nil && !os.IsNotExist(e) {
+					err = e
+				}
+			}
+		}
+		if err != nil {
+			s.add("c05.harness", "cannot-delete", "%v", err)
+		}
+		// the handle stays as it is; identity versions made from now on cannot list these clocks
+		m.delSinceID = true
+		outcome = "deleted"
+	case "identnew":
+		outcome = m.identNew(s)
 	case "delclocks":
 		which := strings.TrimSuffix(strings.TrimPrefix(a, "delclocks("), ")")
 		switch which {
@@ -894,6 +975,21 @@ func (m *model) checkRebuilt(s *step, names []string, when, sigSuffix string) bo
 	return true
 }
 
+// identNew creates a further identity on the handle (identity.NewIdentity snapshots all clocks).
+func (m *model) identNew(s *step) string {
+	m.nIdent++
+	i, err := identity.NewIdentity(m.repo, fmt.Sprintf("another user %d", m.nIdent), fmt.Sprintf("another%d@example.org", m.nIdent))
+	if err != nil {
+		s.add("c05.usable", "identity-create-fails", "%v", err)
+		return "create-error"
+	}
+	if err := i.Commit(m.repo); err != nil {
+		s.add("c05.usable", "identity-commit-fails", "%v", err)
+		return "commit-error"
+	}
+	return "ok"
+}
+
 func (m *model) identMut(s *step) string {
 	m.nIdent++
 	u, err := m.user()
@@ -908,6 +1004,14 @@ func (m *model) identMut(s *step) string {
 		return "mutate-error"
 	}
 	if err := u.Commit(m.repo); err != nil {
+		// With a clock file deleted under the open handle the new version lists fewer clocks than
+		// its predecessor and identity validation refuses it. The statement of C05 says nothing
+		// about identities in that situation: nothing was written, every outcome is accepted.
+		for _, n := range []string{editClock, createClock} {
+			if _, serr := os.Stat(filepath.Join(m.gitdir, world.Namespace, "clocks", n)); serr != nil && !m.p.Mem {
+				return "refused-while-a-clock-file-is-missing"
+			}
+		}
 		s.add("c05.usable", "identity-commit-fails", "%v", err)
 		return "commit-error"
 	}
